@@ -1352,6 +1352,7 @@ class C14(DirectSpec):
         fl += [("same_config_objects_run_twice", 10, "the same configuration objects run twice in one process"),
                ("two_seed_consuming_demes_sprouted_onto_one_level_in_one_metaepoch", 2, "two CMA-ES / LHS / Sobol demes sprouted onto one level in one metaepoch"),
                ("cma_deme_handed_the_largest_seed_numpy_accepts", 2, "CMA-ES deme sprouted in metaepoch 1 of a run seeded with 2**32 - 2 (its seed is 2**32 - 1)"),
+               ("seeded_runs_carried_out_through_the_stepping_methods", 8, "seeded runs driven by run_step() calls followed by run(), or by run_metaepoch() / run_sprout() by hand"),
                ("runs_preceded_by_a_short_run_of_a_sibling_configuration", 10, "seeded runs repeated after a short run of a sibling configuration in the same process"),
                ("history_twins_with_a_warm_started_cma_deme", 3, "such history twins in which a warm-started CMA-ES deme was sprouted"),
                ("descriptors_with_3_levels", 1, "descriptor with 3 levels"), ("cross_process_twins", 10, "fresh-interpreter twins"), ("descriptors_with_2_demes", 10, "descriptors that produced >=2 demes")]
